@@ -239,9 +239,9 @@ class FieldData:
          self._gfa._unregister_line(self)
     if value is None:
       if fieldname in self._data:
+        # the tag is deleted, with its datatype (as by delete())
         self._data.pop(fieldname)
-      # the tag is deleted, with its datatype (as by delete())
-      self._datatype.pop(fieldname, None)
+        self._datatype.pop(fieldname, None)
     else:
       if self.vlevel >= 3:
         self._field_or_default_datatype(fieldname, value)
